@@ -37,7 +37,7 @@ FromLog(st, cfg, ob) ==
      nexit |-> st.nexit, arr |-> st.arr, and |-> st.and, ann |-> st.ann, anc |-> st.anc,
      nodes |-> st.nodes, cu |-> st.cu, exit |-> st.exit, steps |-> st.steps, recs |-> st.recs,
      ev |-> st.ev, unchecked |-> st.unchecked, trk |-> st.trk,
-     trkprev |-> <<st.trk.a, st.trk.b, st.trk.m>>, gb |-> ob.gb, dg |-> Range(st.dg), dl |-> FALSE,
+     trkprev |-> <<st.trk.a, st.trk.b, st.trk.m>>, gb |-> ob.gb, dg |-> Range(st.dg), dl |-> FALSE, pz |-> 1,
      rt |-> ob.rt, cfg |-> cfg, mode |-> "trace", script |-> <<>>, err |-> ""]
 
 Rt0(cfg) == [k \in 1..cfg.K |-> [n \in 1..cfg.N |-> 0]]
@@ -106,12 +106,14 @@ StepEvent ==
            cfg == Tr.cfg
            a == IF e.ev.kind = "arrival" THEN 0 ELSE e.ev.node
            Sx == [S EXCEPT !.script = e.steps]
-           enabled == a \in ArgMin(Sx) /\ EvLabel(Sx, a).kind = e.ev.kind
-           succ == IF enabled THEN ExecEvent(Sx, a) ELSE {}
+           isPause == e.ev.kind = "pause"
+           enabled == isPause \/ (a \in ArgMin(Sx) /\ EvLabel(Sx, a).kind = e.ev.kind)
+           succ == IF isPause THEN {PauseStep(Sx, e.ev.date)} ELSE IF enabled THEN ExecEvent(Sx, a) ELSE {}
            match == {T \in succ : DiffOf(T, e) = {}}
            obs2 == ObsAfter(cfg, pre, e, obs)
            i0 == IF l = 0 THEN InitCheck ELSE [f |-> {}, d |-> {}]
-           newfails == StepFails(cfg, pre, e, obs) \cup InvFails(cfg, e, [gb |-> obs2.gb, dg |-> Range(e.dg)])
+           newfails == (IF isPause THEN F_C16_pause(cfg, pre, e) ELSE StepFails(cfg, pre, e, obs))
+                       \cup InvFails(cfg, e, [gb |-> obs2.gb, dg |-> Range(e.dg)])
            dr == IF ~enabled THEN {<<l + 1, "not-enabled", {e.ev.kind}>>}
                  ELSE IF succ = {} THEN {<<l + 1, "no-successor", {e.ev.kind}>>}
                  ELSE IF match # {} THEN {}
@@ -120,7 +122,7 @@ StepEvent ==
                          ELSE {<<l + 1, "diff", DiffOf(T, e)>>}
 
        IN /\ fails' = AddFails(AddFails(fails, i0.f, 0), newfails, l + 1)
-          /\ wits' = wits \cup Witnesses(cfg, pre, e)
+          /\ wits' = wits \cup (IF isPause THEN {"pause"} ELSE Witnesses(cfg, pre, e))
           /\ taint' = AddFails(taint, Triggers(cfg, pre, e), l + 1)
           /\ drift' = IF Cardinality(drift) < 3 THEN drift \cup i0.d \cup dr ELSE drift
           /\ S' = FromLog(e, cfg, obs2)
